@@ -131,6 +131,7 @@ type Memberlist struct {
 	self    *Node
 	members map[string]*Node // this node's view (includes itself)
 	left    bool
+	crashed bool // process crash: no leave broadcast, nothing in or out any more
 }
 
 func Create(cfg *Config) (*Memberlist, error) {
@@ -403,14 +404,52 @@ func (n *Network) PushPull(a, b string) bool {
 		return false
 	}
 	n.Spawn(fmt.Sprintf("ml-pushpull-%s-%s", a, b), func() {
+		// the exchange runs over a connection between two live processes: a node that has
+		// crashed in the meantime neither answers nor receives
+		gone := func() bool {
+			n.mu.Lock()
+			defer n.mu.Unlock()
+			return na.crashed || nb.crashed
+		}
+		if gone() {
+			return
+		}
 		sa := na.cfg.Delegate.LocalState(false)
 		sb := nb.cfg.Delegate.LocalState(false)
+		if gone() {
+			return
+		}
 		nb.cfg.Delegate.MergeRemoteState(sa, false)
 		n.note(&n.mergeAt, b, a)
+		if gone() {
+			return
+		}
 		na.cfg.Delegate.MergeRemoteState(sb, false)
 		n.note(&n.mergeAt, a, b)
 	})
 	return true
+}
+
+// Crash removes a node from the fabric without any leave broadcast (process crash): messages
+// addressed to it are lost, its own sends fail; the others learn through DeclareDead.
+func (n *Network) Crash(name string) {
+	n.mu.Lock()
+	defer n.mu.Unlock()
+	m := n.nodes[name]
+	if m == nil || m.left {
+		return
+	}
+	m.left = true
+	m.crashed = true
+	delete(n.byAddr, fmt.Sprintf("%s:%d", m.cfg.BindAddr, m.cfg.BindPort))
+	kept := n.pending[:0]
+	for _, p := range n.pending {
+		if p.To == name {
+			continue
+		}
+		kept = append(kept, p)
+	}
+	n.pending = kept
 }
 
 // DeclareDead makes `at` believe `dead` has failed (failure-detector verdict).
